@@ -24,7 +24,9 @@ NoJar == [st |-> "none", pk |-> "none"]
 RInit0 == jar = [b \in Browsers |-> NoJar] /\ nAtt = 0 /\ rviol = {}
 
 \* how the callback request differs from what the browser would send by itself
-Tampers == {"asis", "dropState", "dropPkce", "otherKey", "swapNames", "truncate", "otherKeyPkce"}
+\* replayPkceAsState: the browser presents the pkce cookie that attempt args.att received - under the state cookie's name (and under
+\* its own), with the verifier as state parameter: a genuine cookie of the RP, minted for another cookie name
+Tampers == {"asis", "dropState", "dropPkce", "otherKey", "swapNames", "truncate", "otherKeyPkce", "replayPkceAsState"}
 \* the state parameter of the callback, relative to the state of attempt args.att: the very string, a proper prefix, the string plus a
 \* suffix, or the empty string
 Forms == {"exact", "prefix", "suffix", "empty"}
@@ -51,6 +53,8 @@ Presented(a, slot) ==
     [] a.tamper = "otherKey"  /\ slot = "st" -> "foreign"        \* minted under another key
     [] a.tamper = "otherKeyPkce" /\ slot = "pk" -> "foreign"
     [] a.tamper = "swapNames" -> "wrongname"                      \* minted for the other cookie name
+    [] a.tamper = "replayPkceAsState" /\ slot = "st" -> "wrongname"
+    [] a.tamper = "replayPkceAsState" /\ slot = "pk" -> IF cfg.pkce /\ a.att # "t0" THEN a.att ELSE "none"
     [] a.tamper = "truncate"  /\ slot = "st" -> "damaged"
     [] OTHER -> j[slot]
 Usable(x) == x \notin {"none", "foreign", "wrongname", "damaged"}
@@ -63,11 +67,15 @@ RulesStart(a, o) ==
     <<"C17.pkce.challenge", (o.class = "redirect" /\ cfg.pkce) => o.challenge = "s256ofCookieVerifier">>,
     <<"C17.pkce.off",       (o.class = "redirect" /\ ~cfg.pkce) => o.challenge = "none">> }
 
+\* a.err: the callback reports an error of the provider (error=access_denied) instead of a code; the application's error handler
+\* is told about it only if the state check passed (class errorHandled), and nothing is ever sent to the provider
 RulesCallback(a, o) ==
   { <<"C17.exchange.state",   (o.class = "exchanged" \/ o.tokenRequests > 0) => StateValid(a)>>,
     <<"C17.unauthorized",     (~StateValid(a)) => (o.class = "unauthorized" /\ o.tokenRequests = 0)>>,
+    <<"C17.error.state",      (o.class = "errorHandled") => (StateValid(a) /\ a.err /\ o.stateToApp = a.att)>>,
+    <<"C17.error.noExchange", a.err => (o.tokenRequests = 0 /\ o.class # "exchanged")>>,
     <<"C17.pkce.verifier",    (o.tokenRequests > 0 /\ cfg.pkce) => (Usable(Presented(a, "pk")) /\ o.verifier = Presented(a, "pk"))>>,
-    <<"C17.pkce.required",    (cfg.pkce /\ ~Usable(Presented(a, "pk"))) => (o.class = "unauthorized" /\ o.tokenRequests = 0)>>,
+    <<"C17.pkce.required",    (cfg.pkce /\ ~Usable(Presented(a, "pk")) /\ ~a.err) => (o.class = "unauthorized" /\ o.tokenRequests = 0)>>,
     <<"C17.pkce.none",        (o.tokenRequests > 0 /\ ~cfg.pkce) => o.verifier = "none">>,
     <<"C17.once",             o.tokenRequests <= 1>>,
     <<"C17.callback.state",   (o.class = "exchanged") => o.stateToApp = a.att>>,
